@@ -47,7 +47,62 @@ def make_repo(url):
 
 def plan(ctx):
     n = ctx.n(4000, 60000)
-    return [('case', engine.stable_hash((ctx.seed, 'c19', i))) for i in range(n)]
+    return [('case', engine.stable_hash((ctx.seed, 'c19', i))) for i in range(n)] + \
+        [('two-files', engine.stable_hash((ctx.seed, 'c19f', i))) for i in range(ctx.n(60, 800))]
+
+
+def run_two_files(seed):
+    """delta A B (the machine's git and diff do the comparison): links name the two files that were given, wherever delta is
+    started from and however the files were named (relative, absolute, with '..')."""
+    import shutil
+    import tempfile
+    rng = engine.item_rng(seed)
+    base = tempfile.mkdtemp(prefix='c19two', dir=os.path.join(runner.workdir(), 'tmp'))
+    try:
+        os.makedirs(os.path.join(base, 'one', 'sub'))
+        os.makedirs(os.path.join(base, 'two'))
+        os.makedirs(os.path.join(base, 'elsewhere'))
+        fa = os.path.join(base, 'one', 'sub', rng.choice(['a.rs', 'old name.txt', 'x.py']))
+        fb = os.path.join(base, 'two', rng.choice(['b.rs', 'new name.txt', 'y.py']))
+        la = ['line %d %s' % (i, gen.rand_text(rng, 20, allow_empty=False, tabs_ok=False)) for i in range(rng.randint(3, 9))]
+        lb = list(la)
+        lb[rng.randrange(len(lb))] = 'changed ' + gen.rand_text(rng, 15, allow_empty=False, tabs_ok=False)
+        open(fa, 'w').write('\n'.join(la) + '\n')
+        open(fb, 'w').write('\n'.join(lb) + '\n')
+        how = rng.choice(['absolute', 'absolute', 'relative', 'dotdot', 'mixed'])
+        if how == 'absolute':
+            cwd, a, b = os.path.join(base, 'elsewhere'), fa, fb
+        elif how == 'relative':
+            cwd, a, b = base, os.path.relpath(fa, base), os.path.relpath(fb, base)
+        elif how == 'dotdot':
+            cwd = os.path.join(base, 'elsewhere')
+            a, b = os.path.relpath(fa, cwd), os.path.relpath(fb, cwd)
+        else:
+            cwd, a, b = os.path.join(base, 'one'), os.path.relpath(fa, os.path.join(base, 'one')), fb
+        args = ['--paging', 'never', '--no-gitconfig', '--hyperlinks'] + rng.choice([[], ['--line-numbers'], ['--side-by-side'], ['--hunk-header-style', 'file line-number syntax']])
+        res = runner.run_delta(args + [a, b], b'', cwd=cwd, stdin_is_none=True, path_prefix=None)
+        sets = {'kinds': ['two-files'], 'views': ['two-files:' + how], 'option_classes': ['two-files'], 'mode': ['pipe']}
+        c = crash_outcome(res, ID)
+        if c is not None:
+            return c
+        if res.rc != 1:
+            return inconclusive('delta a b exited %s: %s' % (res.rc, res.err[:100]), sets=sets)
+        targets = []
+        for r in term.decode(res.out.decode('utf-8', 'replace')):
+            for uri, text in r.links:
+                if uri.startswith('file://'):
+                    pth = uri[len('file://'):]
+                    pth = pth[pth.index('/'):] if not pth.startswith('/') else pth
+                    targets.append((norm(pth.split(':')[0]), text))
+        if not targets:
+            return violated('c19:two-files:no-links', 'delta --hyperlinks a b wrote no file link at all', 'links', 'none', run=res, sets=sets)
+        wrong = [(t, x) for t, x in targets if t not in (norm(fa), norm(fb))]
+        if wrong:
+            return violated('c19:two-files:target:' + how, 'delta --hyperlinks %s %s (started in %s): a file link names neither of the two files' % (a, b, cwd),
+                            [norm(fa), norm(fb)], wrong[:3], run=res, sets=sets)
+        return held(sig=('two-files', how, tuple(args[4:])), nontrivial=True, counters={'two_file_links': len(targets), 'links_total': len(targets)}, sets=sets)
+    finally:
+        shutil.rmtree(base, ignore_errors=True)
 
 
 def norm(p):
@@ -55,7 +110,9 @@ def norm(p):
 
 
 def run_item(item):
-    _, seed = item
+    kind_, seed = item
+    if kind_ == 'two-files':
+        return run_two_files(seed)
     rng = engine.item_rng(seed)
     r = rng.random()
     if r < 0.55:
